@@ -351,6 +351,20 @@ func Geom(w b6.World) string {
 			}, &b6.EachFeatureOptions{Goroutines: 1})
 			sort.Ints(mod)
 			fmt.Fprintf(&sb, " | mod:[%s]", strings.ReplaceAll(ints(mod), ",", " "))
+			var mt []string
+			m.EachModifiedTag(func(t ingest.ModifiedTag, _ int) error {
+				if t.Deleted {
+					mt = append(mt, fmt.Sprintf("%05d:%s-", ModelID(t.ID), t.Tag.Key))
+				} else {
+					mt = append(mt, fmt.Sprintf("%05d:%s=%s", ModelID(t.ID), t.Tag.Key, valText(t.Tag.Value)))
+				}
+				return nil
+			}, &b6.EachFeatureOptions{Goroutines: 1})
+			sort.Strings(mt)
+			for i := range mt {
+				mt[i] = strings.TrimLeft(mt[i], "0")
+			}
+			fmt.Fprintf(&sb, " | mtags:%s", hx.List(mt))
 		}
 		return sb.String()
 	})
